@@ -187,6 +187,25 @@ func buildFaults(m *gen.Model, base *gen.Rendered, r *xrand.Rand) []fault {
 	}
 	// (a stand-alone method without its path is not a fault of its own: indentation is immaterial, so the method
 	// simply becomes a child of a preceding URL block)
+	// appended snippets: faults that need a particular arrangement
+	for _, sn := range [][2]string{
+		{"undefined-macro-in-unpasted-macro", "MACRO @neverPastedM\n(\n  TYPE @npm any\n  PASTE @noSuchMacroAtAll\n)\n"},
+		{"second-Path-not-adjacent", "URL /np/{x}/{y}/{z}\n(\n  Path\n    {\n      \"x\": 1\n    }\n  GET\n  (\n    Path\n      {\n        \"z\": 3\n      }\n    200 any\n  )\n  Path\n    {\n      \"y\": 2\n    }\n)\n"},
+		{"tags-name-an-automatic-tag", "GET /autotagseg/a\n  200 any\nGET /autotagseg/b\n  Tags @autotagseg\n  200 any\n"},
+		{"enum-in-macro-pasted-twice", "MACRO @twiceEnumM\n(\n  ENUM @twiceEnum\n  [1, 2]\n)\nPASTE @twiceEnumM\nPASTE @twiceEnumM\n"},
+		{"type-in-macro-pasted-twice", "MACRO @twiceTypeM\n(\n  TYPE @twiceType any\n)\nPASTE @twiceTypeM\nMACRO @viaM\n(\n  PASTE @twiceTypeM\n)\nPASTE @viaM\n"},
+		{"server-in-macro-pasted-twice", "MACRO @twiceSrvM\n(\n  SERVER @twiceSrv\n    BaseUrl \"https://a/\"\n)\nPASTE @twiceSrvM\nPASTE @twiceSrvM\n"},
+		{"method-in-macro-pasted-twice", "MACRO @twiceGetM\n(\n  GET /twice/get\n    200 any\n)\nPASTE @twiceGetM\nPASTE @twiceGetM\n"},
+		{"second-Title-after-empty-Title", "MACRO @unusedInfoM\n(\n  TYPE @uim any\n)\n"}, // placeholder replaced below when there is no INFO
+	} {
+		if sn[0] == "second-Title-after-empty-Title" {
+			if strings.Contains(text, "\nINFO\n") {
+				continue
+			}
+			sn[1] = "INFO\n  Title \"\"\n  Title \"second\"\n"
+		}
+		out = append(out, fault{kind: sn[0], host: "snippet", text: text + sn[1], spans: [][2]int{{len(text), len(text) + len(sn[1])}}})
+	}
 	// JSIGHT without its version
 	out = append(out, fault{kind: "missing-parameter", host: "JSIGHT", text: strings.Replace(text, "JSIGHT 0.3", "JSIGHT", 1), spans: [][2]int{{0, 10}}})
 	// a reference to an undefined type: every usage of a type name (not its declaration)
